@@ -47,6 +47,8 @@ func runC06(p *core.Program, r *core.Report) {
 	r.Rule("C06.fifo", "queue mode: tail enqueue, head dequeue, one drain goroutine", 3)
 	r.Rule("C06.license", "each frame hashes the license in effect for that send: options applied to a fresh struct per send; per-send license if non-empty, else the client's", 4)
 	c05Frame(p, r, "C06.license", true)
+	r.Rule("C06.frame", "every frame is header + int-length-prefixed body: WriteHeader copies the body out of the buffer before it resets the buffer and writes the header in front (shared with C05.frame)", 3)
+	c05Frame(p, r, "C06.frame", false)
 	r.Rule("C06.queue", "the queue behind queue mode keeps its contract (C11's put/get/timeout/wake-up/FIFO rules on util/queue.RequestQueue): nothing accepted is dropped, taken twice or left waiting for ever", 8)
 	importQueueRules(p, r, "C06.queue")
 
@@ -418,6 +420,10 @@ func c06CloseOnError(p *core.Program, r *core.Report, t *types.Named) {
 				var out []paths.Event
 				if as, ok := m.(*ast.AssignStmt); ok && len(as.Lhs) == len(as.Rhs) {
 					for i, l := range as.Lhs {
+						// only the client's own fields count: a local that happens to be called conn is not the connection field
+						if _, isField := ast.Unparen(l).(*ast.SelectorExpr); !isField {
+							continue
+						}
 						switch norm(l) {
 						case "conn":
 							if norm(as.Rhs[i]) == "nil" {
